@@ -80,6 +80,30 @@ METHOD_ARGS = {
 }
 RECEIVERS = {'str': "'abc'", 'list': '[1, 2, 3]', 'dict': "{'a': 1}", 'tuple': '(1, 2, 3)', 'set': '{1, 2, 3}', 'int': '5', 'float': '2.5'}
 
+# the same methods on other receivers of the type (empty, built up by statements, other element/key types) and with other
+# argument lists (fewer arguments, a key of another type)
+ALT_RECEIVERS = {
+    'str': ["''", "input()", "str(5)"],
+    'list': ['[]', 'list()', "['a', 'b']", '[1, 2.5]', "[[1], [2]]"],
+    'dict': ['{}', 'dict()', "{1: 'x'}", "{'a': 1, 'b': 'two'}", "{'a': [1]}"],
+    'tuple': ['()', "(1, 'a')", "tuple()"],
+    'set': ['set()', "{'a', 'b'}"],
+}
+BUILT_UP = {
+    'list': "value = []\nvalue.append(1)\n", 'dict': "value = {}\nvalue['k'] = 1\n", 'set': "value = set()\nvalue.add(1)\n",
+    'str': "value = ''\nvalue += 'ab'\n",
+}
+ALT_ARGS = {
+    'dict': {'get': ["('a')", "(1)", "('zz', None)", "(1, 'dflt')", "('k')"], 'pop': ["('zz', 0)", "(1)", "('k')", "('k', None)"], 'setdefault': ["('a')", "(1, [])", "('k')"],
+             'update': ["({})", "(x=1)", "([('p', 1)])"], 'fromkeys': ["('ab')", "([1, 2])"]},
+    'list': {'pop': ["(0)", "(-1)"], 'index': ["('a')", "(1, 0)"], 'sort': ["(reverse=True)", "(key=len)"], 'count': ["('a')"], 'insert': ["(1, 'x')"], 'extend': ["('ab')", "([])"],
+             'remove': ["('a')"], 'append': ["('s')", "([1])", "(None)"]},
+    'str': {'split': ["()", "(',', 1)"], 'join': ["([])", "('ab')"], 'replace': ["('a', 'b', 1)"], 'strip': ["('a')"], 'find': ["('b', 1)"], 'format': ["()", "('a', 'b')"],
+            'count': ["('a', 1)"], 'startswith': ["(('a', 'b'))"], 'center': ["(9)"], 'encode': ["()"], 'splitlines': ["(True)"]},
+    'set': {'add': ["('a')"], 'union': ["()", "([1], {2})"], 'update': ["([1])"], 'pop': ["()"], 'discard': ["('zz')"]},
+    'tuple': {'index': ["('a')"], 'count': ["('a')"]},
+}
+
 BUILTIN_ARGS = {
     'abs': '(-1)', 'all': '([True])', 'any': '([False])', 'ascii': "('a')", 'bin': '(5)', 'bool': '(1)', 'bytearray': '(3)', 'bytes': "('a', 'utf-8')", 'callable': '(len)',
     'chr': '(65)', 'complex': '(1, 2)', 'dict': '(a=1)', 'dir': '()', 'divmod': '(7, 2)', 'enumerate': "(['a'])", 'filter': '(None, [0, 1])', 'float': "('1.5')", 'format': "(3.14159, '.2f')",
@@ -117,6 +141,12 @@ INTRO_PROGRAMS = {
     'annotated:function-params': "def longest(words: list[str]) -> str:\n    best = ''\n    for w in words:\n        if len(w) > len(best):\n            best = w\n    return best\nnames = list()\nnames.append(3)\nprint(longest(['a', 'bb']), names)\n",
     'annotated:dict-and-set': "ages: dict[str, int] = {}\nseen: set[int] = set()\nother = dict()\nother['k'] = 1.5\nbag = set()\nbag.add('x')\nprint(ages, seen, other, bag)\n",
     'annotated:tuple-and-optional': "pair: tuple[int, str] = (1, 'a')\nthing = tuple()\nprint(pair, thing)\n",
+    'mistake:assign-to-a-str-method': "print('x'.upper())\ns = 'abc'\ns.upper = 5\nprint(s)\n",
+    'mistake:assign-to-an-int-method': "x = 5\nprint((7).bit_length())\nx.bit_length = 3\nprint(x)\n",
+    'mistake:assign-attribute-on-list': "items = [1]\nitems.size = 1\nprint(items, [2].count(2))\n",
+    'mistake:assign-attribute-on-float': "ratio = 0.5\nratio.pct = 50\nprint(ratio, (1.5).is_integer())\n",
+    'mistake:assign-attribute-on-bool-none': "flag = True\nflag.why = 'x'\nnothing = None\nnothing.kind = 1\nprint(flag, nothing)\n",
+    'mistake:call-a-number': "x = 1\nx()\n", 'mistake:call-a-string': "'a'()\n", 'mistake:call-the-result-of-print': "print(1)(2)\n",
     'annotated:nested': "grid: list[list[int]] = [[1]]\nrow = list()\nrow.append('x')\nprint(grid, row)\n",
     'annotated:return-generic': "def make() -> list[float]:\n    return [1.5]\nvalues = list()\nvalues.append(True)\nprint(make(), values)\n",
 }
@@ -184,6 +214,9 @@ def check_program(ctx, src, origin, must_complete, tag=None):
         ctx.count('completed_analyses')
     # ---- lines --------------------------------------------------------------------------------------------
     for label, name, line in i1:
+        if line is None:
+            ctx.violation('C18|issue-without-a-line|%s' % label, case, 'issue %s (%s) carries no line at all' % (label, name))
+            break
         if line is not None and not (1 <= line <= nlines):
             ctx.violation('C18|issue-line-outside-source|%s' % label, case, 'line %r, source has %d lines' % (line, nlines))
             break
@@ -216,6 +249,41 @@ def check_program(ctx, src, origin, must_complete, tag=None):
         ctx.sample({'origin': origin, 'tag': tag, 'src': src[:300], 'success': t1.success, 'issues': i1[:6]})
 
 
+def check_interleaved(ctx, src_a, src_b):
+    """repetition with other analyses in between, on ONE report: A, B, A, B, A - the repeats return the same issues and attach nothing"""
+    from pedal.core.commands import clear_report, contextualize_report
+    from pedal.core.report import MAIN_REPORT
+    from pedal.tifa import tifa_analysis
+    for s_ in (src_a, src_b):
+        try:
+            ast.parse(s_)
+        except (SyntaxError, ValueError, RecursionError, MemoryError):
+            return
+    if src_a == src_b:
+        return
+    case = {'interleaved': [src_a[:3000], src_b[:3000]]}
+    clear_report()
+    contextualize_report(src_a)
+    report = MAIN_REPORT
+    try:
+        first_a = issue_list(tifa_analysis())
+        first_b = issue_list(tifa_analysis(code=src_b))
+        n_fb = len(report.feedback)
+        for rep in range(2):
+            again_a = issue_list(tifa_analysis())
+            again_b = issue_list(tifa_analysis(code=src_b))
+            ctx.count('interleaved_repetitions_checked', 2)
+            if again_a != first_a or again_b != first_b:
+                ctx.violation('C18|interleaved-repetition-different-issues', case, {'first': first_a[:6], 'again': again_a[:6]})
+                return
+            if len(report.feedback) != n_fb:
+                ctx.violation('C18|interleaved-repetition-attached-feedback', case,
+                              'feedback count %d -> %d after analysing A, B, A, B again: %s' % (n_fb, len(report.feedback), [f.label for f in report.feedback[n_fb:]][:5]))
+                return
+    except BaseException as e:
+        ctx.violation('C18|tifa-raised|%s|%s' % (type(e).__name__, site_of(e)), case, traceback.format_exc()[-600:])
+
+
 def origin_family(origin):
     return origin.split(':')[0]
 
@@ -238,6 +306,21 @@ def sweep_programs():
                 continue
             args = METHOD_ARGS.get(tname, {}).get(m, '()')
             out.append(('method:%s.%s' % (tname, m), 'value = %s\nresult = value.%s%s\nprint(result, value)\n' % (recv, m, args)))
+    for tname in ALT_RECEIVERS:
+        typ = getattr(builtins, tname)
+        for m in sorted(dir(typ)):
+            if m.startswith('_'):
+                continue
+            default_args = METHOD_ARGS.get(tname, {}).get(m, '()')
+            for ri, recv in enumerate(ALT_RECEIVERS[tname]):
+                out.append(('method-other-receiver:%s.%s#%d' % (tname, m, ri), 'value = %s\nresult = value.%s%s\nprint(result, value)\n' % (recv, m, default_args)))
+            if tname in BUILT_UP:
+                out.append(('method-built-up-receiver:%s.%s' % (tname, m), '%sresult = value.%s%s\nprint(result, value)\n' % (BUILT_UP[tname], m, default_args)))
+            for ai, args in enumerate(ALT_ARGS.get(tname, {}).get(m, [])):
+                for ri, recv in enumerate([RECEIVERS[tname]] + ALT_RECEIVERS[tname][:2]):
+                    out.append(('method-other-arguments:%s.%s#%d.%d' % (tname, m, ai, ri), 'value = %s\nresult = value.%s%s\nprint(result, value)\n' % (recv, m, args)))
+                if tname in BUILT_UP:
+                    out.append(('method-other-arguments:%s.%s#%d.b' % (tname, m, ai), '%sresult = value.%s%s\nprint(result, value)\n' % (BUILT_UP[tname], m, args)))
     for mod in STD_MODULES:
         out.append(('import:' + mod, 'import %s\nprint(%s)\n' % (mod, mod)))
         out.append(('from-import:' + mod, 'from %s import *\nx = 1\nprint(x)\n' % mod))
@@ -254,11 +337,15 @@ def run(ctx):
     repo = os.path.realpath(os.environ.get('VERIF_REPO', '/repo'))
     # 1. completeness sweep (finite: enumerated completely in both tiers)
     sweep = sweep_programs()
+    previous = None
     for i, (tag, src) in enumerate(sweep):
         if i % ctx.nshards == ctx.shard:
             ctx.count('sweep_cells')
             ctx.seen('sweep_kinds', tag.split(':')[0])
             check_program(ctx, src, 'sweep:' + tag.split(':')[0], True, tag)
+            if previous is not None and (tag.startswith(('mistake', 'intro', 'annotated')) or i % 5 == 0):
+                check_interleaved(ctx, src, previous)
+            previous = src
     # 2. node snippets
     for i, (k, src) in enumerate(sorted(NODE_SNIPPETS.items())):
         if i % ctx.nshards == ctx.shard:
@@ -282,9 +369,14 @@ def run(ctx):
             break
         p = gen_program(rng)
         check_program(ctx, p.src, 'generated', True)
+        if previous is not None and rng.random() < 0.3:
+            check_interleaved(ctx, p.src, previous)
+        previous = p.src
 
 
 def replay(ctx, case):
+    if case.get('interleaved'):
+        return check_interleaved(ctx, case['interleaved'][0], case['interleaved'][1])
     src = case.get('src')
     if src is None and case.get('path'):
         from gen import corpus
